@@ -204,7 +204,7 @@ def forms(tier):
     out['mixed'] = [[['r', [c[:-1]]] if len(c) > 2 else ['c', c[0]], ['v', c[-1]]] for c in rng if len(c) > 1 and c[-1] != list(BLANK)]
     out['col'] = [[['r', [[v] for v in c]]] for c in rng if len(c) > 1]
     # repeated values (the k-th largest counts repetitions; MEDIAN/VAR of equal values)
-    dups = [[list(N(x)) for x in d] for d in ([3, 3, 1, 2], [5, 1, 1, 4], [2.5, 2.5, 2.5], [1, 1], [2, 1, 2, 1, 2], [0, 0, -1, -1], [7, 7, 7, 8])]
+    dups = [[list(N(x)) for x in d] for d in ([100000001, 100000002, 100000003], [1000000.1, 1000000.2, 1000000.3], [1e15, 1e15 + 2, 1e15 + 4], [3, 3, 1, 2], [5, 1, 1, 4], [2.5, 2.5, 2.5], [1, 1], [2, 1, 2, 1, 2], [0, 0, -1, -1], [7, 7, 7, 8])]
     out['range'] += [[['r', [c]]] for c in dups]
     out['array'] += [[['a', [c]]] for c in dups]
     out['col'] += [[['r', [[v] for v in c]]] for c in dups]
